@@ -218,15 +218,24 @@ def run(ck: core.Check):
     # ---- oracle: histories, in this process (which has a long history of its own by now)
     n_hist = ck.pick(1000 if changed else 650, 4000)  # code the models cover was edited: look harder
     hcases = []
-    stats = {"ops": {}, "violating_histories": 0, "refs": 0}
+    stats = {"ops": {}, "violating_histories": 0, "refs": 0, "chain_histories": 0, "preset_named_args": 0, "opsets": {}}
     for _ in range(n_hist):
         prog = lf.gen_program(rng, size=rng.randrange(1, 6), domains=(rng.random() < 0.5))
         ref = lh.gen_reference(rng, prog)
         hist = lh.gen_history(rng, prog, rng.randrange(2, 9))
         hcases.append({"prog": prog, "hist": hist, "ref": ref, "salt": rng.randrange(0, 200)})
+    # histories over programs with a dependency chain of 1200 / 3000 operators (flat and inside a body): the
+    # snapshots, the renamed rebuilds and the never-built twin at the size where recursion limits bite. Appended
+    # after the random ones (their index is beyond the slice below, so they are listed separately).
+    chain_cases = []
+    for n_, in_body in ck.pick([(1200, False), (1200, True)], [(1200, False), (1200, True), (3000, False), (3000, True)]):
+        cp = lf.gen_chain_program(rng, n_, in_body)
+        creqs = lf.chain_requests(cp)
+        chist = [{"op": "build", "req": creqs[1]}, {"op": "build", "req": creqs[2]}] + lh.gen_history(rng, cp, 3)
+        chain_cases.append({"prog": cp, "hist": chist, "ref": creqs[0], "salt": 0})
     inproc = []
     # (quick: all histories are generated - the later phases draw from the same PRNG - the first 480 are run)
-    for c in hcases[: ck.pick(900 if changed else 480, len(hcases))]:
+    for c in hcases[: ck.pick(900 if changed else 480, len(hcases))] + chain_cases:
         try:
             r = lh.run_case(c["prog"], c["hist"], c["ref"])
         except Exception as e:  # noqa: BLE001 - observation machinery, not a verdict
@@ -235,6 +244,9 @@ def run(ck: core.Check):
         inproc.append(r)
         for o in c["hist"]:
             stats["ops"][o["op"]] = stats["ops"].get(o["op"], 0) + 1
+        stats["chain_histories"] += 1 if "chain" in c["prog"] else 0
+        stats["preset_named_args"] += len(lf.preset_store(c["prog"]))
+        stats["opsets"][str(c["prog"].get("opset", 17))] = stats["opsets"].get(str(c["prog"].get("opset", 17)), 0) + 1
         ck.count(("hist", json.dumps([lf.to_objs(c["prog"]), c["hist"]])) if len(c["hist"]) >= 2 else None)
         ck.sample({"history": [o["op"] + (":" + o["req"]["kind"] if o["op"] == "build" else "") for o in c["hist"]],
                    "ref_before": r["ref_before"], "ref_after": r["ref_after"]}, 3)
